@@ -268,6 +268,13 @@ func genRotAdversarial(out *bufio.Writer, rng *rand.Rand, count int) int {
 			if second != nil {
 				c.add(second)
 			}
+			if !prelude && n%7 == 3 {
+				// spawned at the largest 64-bit number congruent to its placement and Reset at once,
+				// before anything has executed: the core must be empty again
+				top := ^uint64(0)
+				c.spawn(0, top-(top-base)%m)
+				c.reset()
+			}
 			if prelude {
 				// the same earlier battle in both variants: a quiet warrior loaded across the end of
 				// the core, a few cycles, Reset — the compared battle then starts from an empty core
@@ -280,7 +287,12 @@ func genRotAdversarial(out *bufio.Writer, rng *rand.Rand, count int) int {
 			if variant == 1 {
 				sh = k
 			}
-			c.spawn(0, (base+sh)%m+uint64(variant)*uint64(rng.Intn(3))*m)
+			off0 := (base+sh)%m + uint64(variant)*uint64(rng.Intn(3))*m
+			if variant == 1 && rng.Intn(3) == 0 {
+				top := ^uint64(0)
+				off0 = top - (top-(base+sh)%m)%m // the largest 64-bit number congruent to the placement
+			}
+			c.spawn(0, off0)
 			if second != nil {
 				c.spawn(1, (off2+sh)%m)
 			}
